@@ -382,7 +382,7 @@ def run_check(pid, tier, seed, replay):
             impl = read_lines(os.path.join(res["dir"], "impl.out"))
             model = impl if run.get("no_model") else read_lines(os.path.join(res["dir"], "model.out"))
             all_runs.append((run, res["seed"], ops, impl, model))
-            seqs = split_sequences(ops)
+            seqs = [(j, j + 1) for j in range(len(ops))] if run.get("per_line") else split_sequences(ops)
             evaluations += len(ops)
             nt_re = re.compile(run.get("nontrivial", r"."))
             for (a, b) in seqs:
